@@ -82,18 +82,20 @@ pub fn end() -> Trace {
 
 /// Raise the flag from outside a seam event (the asynchronous canceller, or `Pre`).
 pub fn raise_now() {
-    let stop = STATE.with(|s| {
-        let mut s = s.borrow_mut();
-        s.as_mut().and_then(|st| {
-            if st.trace.raised_at.is_none() {
-                st.trace.raised_at = Some(st.seq);
-            }
-            st.stop.clone()
-        })
-    });
+    let stop = STATE.with(|s| s.borrow().as_ref().and_then(|st| st.stop.clone()));
     if let Some(f) = stop {
         simctx::log(simctx::EV_FAULT, 1, 0);
+        // the store is a scheduling point BEFORE it takes effect: the planner may run for as long
+        // as the scheduler likes in between. The instant that counts is the one at which the
+        // store has happened, so it is recorded afterwards (no scheduling point in between).
         f.store(true, Ordering::SeqCst);
+        STATE.with(|s| {
+            if let Some(st) = s.borrow_mut().as_mut() {
+                if st.trace.raised_at.is_none() {
+                    st.trace.raised_at = Some(st.seq);
+                }
+            }
+        });
     }
 }
 
